@@ -777,16 +777,24 @@ class Array(metaclass=MetaArray):
         return [cls._itemtype]
 
     def _to_json(self):
-        out = []
-        for v in self:  # TODO does not support multidimensional arrays
+        shape = self._shape
+
+        def nested(index):
+            # nested lists, one level per dimension
+            if len(index) < len(shape):
+                return [
+                    nested(index + (ii,)) for ii in range(shape[len(index)])
+                ]
+            v = self[index[0] if len(index) == 1 else index]
             if hasattr(v, "_to_json"):
                 vdata = v._to_json()
             else:
                 vdata = v
             if self._has_refs and v is not None:
                 vdata = (v.__class__.__name__, vdata)
-            out.append(vdata)
-        return out
+            return vdata
+
+        return nested(())
 
 
 def is_index(atype):
